@@ -8,6 +8,7 @@ mod c04;
 mod c05;
 mod c06;
 mod c07;
+mod c08;
 mod c11;
 mod c11walk;
 mod c12;
@@ -95,6 +96,10 @@ fn main() {
         "C07" => {
             report = Report::new("C07", "a direct CreateNew test on the transport; histories (as C02, incl. interrupted and resumed backups) with byte-for-byte snapshots of the archive before/after every step; and two backups of differing sources racing on one archive under schedules (A runs i ops, B runs j, A runs k, for i,j<=10, plus random schedules); non-trivial = history with more than one backup / schedule in which both actors move; distinct by seed and schedule");
             c07::run(&tier, seed, &mut report);
+        }
+        "C08" => {
+            report = Report::new("C08", "archives written directly in the documented format by the harness's own encoder: every arrangement of {absent, incomplete, complete} versions over small path pools with every subset of entries cut into hunks in every way (2 and 3 versions), plus random layouts of up to 8 versions in every state (no directory, directory only, empty/junk/missing head, no index directory, open, closed, tail without readable head, unreadable tail) with empty hunks and deleted/junk/zero-length hunk files; each version listed unfiltered and with subtrees and exclusions; non-trivial = the rule's chain visits at least two versions; distinct by canonical text of layout and query");
+            c08::run(&tier, seed, &mut report);
         }
         "C09" => {
             report = Report::new("C09", "healthy side: final states of generated histories (completed and interrupted backups, deletes, gc) validated full and quick; damage side: EVERY file of scenario archives x {delete, truncate 0, truncate half, garbage} plus sampled bit flips, each followed by restore of every version and full+quick validation; all cases non-trivial; distinct by seed, file and damage");
